@@ -207,7 +207,8 @@ class PduUnitBase(Unit):
         for crc in (0, 1):
             for large in (0, 1):
                 for idw, seqw in combos:
-                    cfg = {"crc": crc, "large": large, "idw": idw, "seqw": seqw, "mode": i % 2}
+                    # segmentation control is a header bit every PDU kind carries (it shares octet 3 with the two width fields)
+                    cfg = {"crc": crc, "large": large, "idw": idw, "seqw": seqw, "mode": i % 2, "segctrl": (i // 2) % 2}
                     i += 1
                     for tag in self.param_set_tags():
                         c = dict(cfg)
